@@ -9,7 +9,7 @@ RULE = ("case = propagator-level model run under a seeded agenda perturbation an
         "implied constraint added; each run must equal the extracted model's sequence exactly and its solution SET / verdict / optimum "
         "must equal the brute-force one computed from the Coq `sat` (hence equal across all orders); non-trivial = at least one solution")
 def gen_sched(tier, rng):
-    return ec.gen_models(ec.entry_any, 2500, 400000, sched_frac=1.0)(tier, rng)
+    return ec.gen_models(ec.entry_any, 8000, 400000, sched_frac=1.0)(tier, rng)
 def gen_perm(tier, rng):
     cases = []
     for c in ec.gen_models(ec.entry_any, 800, 150000)(tier, rng) + ec.structured(tier, rng):
